@@ -68,33 +68,33 @@ type Summary struct {
 
 // ProgSummary is the per-program outcome of generation and compilation.
 type ProgSummary struct {
-	ID         string            `json:"id"`
-	Family     string            `json:"family"`
-	Role       string            `json:"role"`
-	Props      []string          `json:"props"`
-	Exit       int               `json:"exit"`
-	Stderr     string            `json:"stderr"`
-	StdoutLen  int               `json:"stdout_len"`
-	ParseErr   string            `json:"parse_err"`
-	RespError  string            `json:"resp_error"`
-	Features   uint64            `json:"features"`
-	NFiles     int               `json:"n_files"`
-	FileName   string            `json:"file_name"`
-	SHA        string            `json:"sha"`
-	ExtraBytes bool              `json:"extra_bytes"`
-	Package    string            `json:"package"`
-	License    bool              `json:"license"`
-	Funcs      map[string]string `json:"funcs"`
-	Types      []string          `json:"types"`
-	Imports    map[string]string `json:"imports"`
-	AstErr     string            `json:"ast_err"`
-	GogoErr    string            `json:"gogo_err"`
-	CompileErr string            `json:"compile_err"`
-	Roots      []string          `json:"roots"`
-	RootsOrdered []string        `json:"roots_ordered"`
-	Linked     bool              `json:"linked"`
-	ExpectFail bool              `json:"expect_fail"`
-	SHARuns    []string          `json:"sha_runs"`
+	ID           string            `json:"id"`
+	Family       string            `json:"family"`
+	Role         string            `json:"role"`
+	Props        []string          `json:"props"`
+	Exit         int               `json:"exit"`
+	Stderr       string            `json:"stderr"`
+	StdoutLen    int               `json:"stdout_len"`
+	ParseErr     string            `json:"parse_err"`
+	RespError    string            `json:"resp_error"`
+	Features     uint64            `json:"features"`
+	NFiles       int               `json:"n_files"`
+	FileName     string            `json:"file_name"`
+	SHA          string            `json:"sha"`
+	ExtraBytes   bool              `json:"extra_bytes"`
+	Package      string            `json:"package"`
+	License      bool              `json:"license"`
+	Funcs        map[string]string `json:"funcs"`
+	Types        []string          `json:"types"`
+	Imports      map[string]string `json:"imports"`
+	AstErr       string            `json:"ast_err"`
+	GogoErr      string            `json:"gogo_err"`
+	CompileErr   string            `json:"compile_err"`
+	Roots        []string          `json:"roots"`
+	RootsOrdered []string          `json:"roots_ordered"`
+	Linked       bool              `json:"linked"`
+	ExpectFail   bool              `json:"expect_fail"`
+	SHARuns      []string          `json:"sha_runs"`
 }
 
 func prepare(args []string) {
